@@ -38,7 +38,7 @@ CHECKS = {
     engine="formula",
     technique="decision-table extraction: the six loop-free registration/invocation functions are interpreted over abstract handler values {NULL, symbols standing for every other handler, the default handler} and compared row by row with the reference model; storage-class and who-writes facts from the IR",
     category="proof",
-    text="The functions touch handler values only by copies and null tests (enforced: anything else is 'not modelled'), so their behaviour is a finite decision table; all 162 rows equal the model (set returns the previous value of its own variable and stores arg-or-default; invoke calls exactly one handler: thread-local, else process-wide, else default, with unchanged arguments). With per-step equality the property over all histories and interleavings follows by induction; per-thread isolation is the thread_local storage class read from the IR.",
+    text="The functions touch handler values only by copies and null tests (enforced: anything else is 'not modelled'), so their behaviour is a finite decision table; all 162 rows equal the model (a function that reads writable state other than the two registrations is reported: the handler invoked must depend on the registrations alone) (set returns the previous value of its own variable and stores arg-or-default; invoke calls exactly one handler: thread-local, else process-wide, else default, with unchanged arguments). With per-step equality the property over all histories and interleavings follows by induction; per-thread isolation is the thread_local storage class read from the IR.",
     design_ref="DESIGN.md §3.4, §4 C13",
     note=TB + "; platform TLS semantics; registration is not synchronised (a data race between a registering and a violating thread is outside the property as stated); inheritance by later-created threads is left open as in the property"),
  "C16": dict(
@@ -59,7 +59,7 @@ CHECKS = {
     engine="pathflags",
     technique="path-sensitive abstract interpretation (symbolic store, linear path facts decided by Fourier-Motzkin, opaque loop phis, bounded inlining of helpers and nested exported callees) with a handler-count/code typestate; return conventions per function",
     category="other",
-    text="For every exported function all paths are covered at once: at each return the number of constraint-handler invocations on the path and the code passed are compared with the returned indication (errno_t, negated int, EOF, NULL+*errp, false, 0). Nested calls are inlined so that whether they can report is decided from the guards on the path, which is what separates a real double report from a quiet nested call. Which inputs are violations is taken from the code's own checks. Ordering clause: in the 102 functions with a structurally recognised RSIZE limit check (size > K whose taken side reports), no load, store or libc call reaches dest/src/str at a path state where size > K is still possible (clearing inside the error helpers, dest == NULL length queries and sizes bounded by a known object size are exempt).",
+    text="For every exported function all paths are covered at once: at each return the number of constraint-handler invocations on the path and the code passed are compared with the returned indication (errno_t, negated int, EOF, NULL+*errp, false, 0). Nested calls are inlined so that whether they can report is decided from the guards on the path, which is what separates a real double report from a quiet nested call. Which inputs are violations is taken from the code's own checks. Ordering clause: in the 102 functions with a structurally recognised RSIZE limit check (size > K whose taken side reports), no load, store or libc call reaches dest/src/str at a path state where size > K is still possible (clearing inside the error helpers, dest == NULL length queries and sizes bounded by a known object size are exempt). Status discipline of the formatting engine: the result of each of the 54 calls of the output callback / of the engine's status-returning routines is tested for < 0 or returned (callback) or at least used (routines), so a 'does not fit' reported by the callback cannot be dropped.",
     design_ref="DESIGN.md §3.3, §4 C05",
     note=TB + "; the handler returns normally with errno intact; listed value-level assumptions for four nested copies (sa/checks/c05.py ASSUME_QUIET); 46 triaged known findings (reproduced representatives) remain in known_findings.json"),
  "C04": dict(
@@ -108,7 +108,7 @@ CHECKS = {
     engine="capcheck",
     technique="relational abstract interpretation: for every zeroing memset and every zero-only store loop into a caller buffer the equality 'start offset + length == declared size' is entailed in both directions from the loop invariants",
     category="other",
-    text="Decides a necessary structural clause for all result lengths and all dmax (including both sides of the 0x20 memset/loop switch, since both forms are obligations): slack clearing ends exactly at dest + dmax (a stale counter, a unit slip - elements for bytes - or a loop that stops early breaks the equality), and it starts without a gap: at the buffer start or not behind the end of something the function wrote (a store, or the element count returned by a converter/formatter); a start a constant distance behind every such write is reported, starts computed from a reloaded value are not decided. Third clause (path engine, destination typestate): on every success return of the 28 string producers on which the call stored into dest, dest has been zeroed up to dest+dmax since the last non-zero store - by a memset or zero-only loop that the end clause certified, a full clearing, or a nested producer's own success; seven functions that returned success without any clearing were repaired (fix: c47f74e). That a terminator is present on every success path is C03 (thorough: no-slack build); that the elements in front are exactly the result is value-level (C06) and not decided.",
+    text="Decides a necessary structural clause for all result lengths and all dmax (including both sides of the 0x20 memset/loop switch, since both forms are obligations): slack clearing ends exactly at dest + dmax (a stale counter, a unit slip - elements for bytes - or a loop that stops early breaks the equality), and it starts without a gap: at the buffer start or not behind the end of something the function wrote (a store, or the element count returned by a converter/formatter); a start a constant distance behind every such write is reported, starts computed from a reloaded value are not decided. Third clause (path engine, destination typestate): on every success return of the 28 string producers on which the call stored into dest, dest has been zeroed up to dest+dmax since the last non-zero store - by a memset or zero-only loop that the end clause certified, a full clearing, or a nested producer's own success; seven functions that returned success without any clearing were repaired (fix: c47f74e); the clause also covers the fill family strset_s/strnset_s/strzero_s, where an exit on which the remaining capacity reached zero has no slack (strnset_s repaired, fix: 94b27df). That a terminator is present on every success path is C03 (thorough: no-slack build); that the elements in front are exactly the result is value-level (C06) and not decided.",
     design_ref="DESIGN.md §3.2, §4 C08",
     note=TB + "; functions in tables/cap_reach.json (4 clearing writes: strnset_s, wcsnset_s, wcsfc_s, wcsnorm_compose_s) are not analysed"),
  "C17": dict(
